@@ -124,7 +124,7 @@ func ruleInvalidationWiring(e *Engine, r *Reporter) {
 				if g == nil || g.Name() != "After" {
 					continue
 				}
-				d := describe_(f.Call.Common().Args[1])
+				d := describeDeep(f.Call.Common().Args[1])
 				if strings.Contains(d, "ChangelogCacheEntry)") || strings.Contains(d, "LastModified") || strings.Contains(d, "LastChecked") {
 					detail = d
 					if strings.Contains(d, ".LastModified") && !strings.Contains(d, ".LastChecked") {
